@@ -224,9 +224,14 @@ class Randomizer(RandIF):
                         f.dispose()
                         if hasattr(f.parent, "sum_expr_btor"):
                             # Element of a list: the diagnostics use a solver 
-                            # instance of their own
+                            # instance of their own, and see the list with the
+                            # size an earlier rand set of this call may have 
+                            # solved for (the cached sum / product expressions
+                            # were sized for the extended list)
                             f.parent.sum_expr_btor = None
                             f.parent.product_expr_btor = None
+                            f.parent.sum_expr = None
+                            f.parent.product_expr = None
                         
                 if self.solve_fail_debug > 0:
                     raise SolveFailure(
